@@ -289,6 +289,17 @@ def evaluate(ctx):
     else:
         import props_static
         props_static.evaluate(ctx, out, problems)
+    if pid != "C17":
+        import determinism
+        ex = determinism.expand_stage(ctx.seed, ctx.tier)
+        mine = [d for d in ex.get("struct_diffs", []) if pid in d["props"]]
+        cov["structural_subjects_checked"] = ex.get("struct_checked", 0)
+        cov["structural_differences"] = len(mine)
+        if mine and not out.violations:
+            d = mine[0]
+            out.violations.append({"property": pid, "kind": "expansion-differs-from-model-prediction", "no_failing_input": True,
+                                   "what_no_longer_checks": "structural correspondence (tables / items / visibilities / modes found in the real expansion vs predicted by the Lean model)",
+                                   "difference": d["what"], "model": d["model"], "expansion": d["expansion"], "declaration": d["decl"], "note": d["note"]})
     if not cov.get("samples"):
         cov["samples"] = [{"note": "no sample recorded"}]
     out.evidence["assumptions"] = TRUSTED_BASE
